@@ -479,6 +479,9 @@ class Exec:
 
     def feasible(self):
         from . import solve
+        if self.contract is not None and self.contract.options.get('frames') and self.pos % 4 != 0:
+            # frame-only contracts keep only ownership obligations: pruning every branch is not worth it
+            return True
         return solve.feasible_forked(self.pc, self.eng.feas_timeout_ms)
 
     def branch(self, cond):
@@ -876,6 +879,17 @@ class Exec:
                 self.assume(z3.Length(r) == z3.If(n > 0, n, 0))
                 self.assume(z3.InRe(r, z3.Star(z3.Re(ch))))
                 return V(VStr(r))
+            if static_kind(x) == 'VList':
+                # [e1, ...] * n : n copies of a literal list of length 1
+                self.safe(is_int(y), 'TypeError', 'list * int', e)
+                items = x.arg(0)
+                self.safe(z3.Length(items) == 1, 'Unsupported', 'list repetition of a one-element list', e)
+                n = get_i(y)
+                r = fresh('rep', SeqVal)
+                i = fresh('i', vl.Int)
+                self.assume(z3.Length(r) == z3.If(n > 0, n, 0))
+                self.assume(z3.ForAll([i], z3.Implies(z3.And(i >= 0, i < z3.Length(r)), r[i] == items[0])))
+                return V(VList(r))
             self.safe(z3.And(is_int(x), is_int(y)), 'TypeError', '*', e)
             return V(VInt(get_i(x) * get_i(y)))
         if isinstance(e.op, ast.BitOr):
@@ -1041,7 +1055,7 @@ class Exec:
             if attr in base.fields:
                 return base.fields[attr]
             if base.cls == 'Graph' and attr == 'top':
-                return self.call_contract_method('penman.graph', 'Graph.top', base, [], node)
+                return self.call_contract_method('penman.graph', 'Graph.top', base, ([], {}), node)
             return SFunc('bound', obj=base, name=attr)
         if isinstance(base, SModel):
             if attr == 'top_role':
@@ -1280,6 +1294,9 @@ class Exec:
         if st.value is None:
             return
         self.assign(st.target, self.ev(st.value), st)
+        if isinstance(st.target, (ast.Name, ast.Tuple, ast.List)):
+            from . import mutate
+            mutate.record_roots(self, st.target, st.value)
 
     def assign(self, tgt, val, st):
         if isinstance(tgt, (ast.Name, ast.Tuple, ast.List)):
